@@ -98,6 +98,11 @@ pub fn run(op: &str, var: &[&str], ints: &[i64], sc: &[V]) -> Out {
         // a `&mut` and a `&` cannot alias
         return Out::Unsup;
     }
+    if var.first().map_or(false, |s| s.len() == 2) {
+        // multi-dimensional container families M2/M3, D2/D3, N2/N3 (ops_nd.rs)
+        return op_nd(op, var, st, t3, alias, ints, sc);
+    }
+    let shared = var.iter().skip(2).any(|t| *t == "shared");
     match op {
         "simplex_new" => op_simplex_new(f, t3, ints, sc),
         "opinion_new" => op_opinion_new(f, t3, ints, sc),
@@ -110,9 +115,9 @@ pub fn run(op: &str, var: &[&str], ints: &[i64], sc: &[V]) -> Out {
         "meq" if ints.len() == 2 => op_meq2(f, ints, sc),
         "meq" => op_meq(f, ints, sc),
         "fuse_fold" => op_fuse_fold(f, var, ints, sc),
-        "mbr" | "deduce" | "deduce_with" | "inverse" => op_cond(op, f, st, ints, sc),
+        "mbr" | "deduce" | "deduce_with" | "inverse" => op_cond(op, f, st, shared, ints, sc),
         "abduce" | "abduce_with" => op_abduce(op, f, st, t3, ints, sc),
-        "deduce2" => op_deduce2(f, st, ints, sc),
+        "deduce2" => op_deduce2(f, st, shared, ints, sc),
         "prod2" => op_prod2(f, st, ints, sc),
         "prod3" => op_prod3(f, st, ints, sc),
         "merge" => op_merge(f, st, ints, sc),
@@ -123,7 +128,7 @@ pub fn run(op: &str, var: &[&str], ints: &[i64], sc: &[V]) -> Out {
 // ---------------------------------------------------------------------------------------------
 // checked constructors
 
-fn new_result<T: Dump>(r: Result<T, InvalidValueError>, vac_dog: impl Fn(&T) -> (bool, bool)) -> Out {
+fn new_result<T: Dump>(r: Result<T, InvalidValueError>, vac_dog: impl Fn(&T) -> (bool, bool), views: impl Fn(&T, &mut String)) -> Out {
     match r {
         Ok(t) => {
             let mut w = String::new();
@@ -131,10 +136,53 @@ fn new_result<T: Dump>(r: Result<T, InvalidValueError>, vac_dog: impl Fn(&T) -> 
             let (v, d) = vac_dog(&t);
             v.dump(&mut w);
             d.dump(&mut w);
+            views(&t, &mut w);
             Out::Ok(w)
         }
         Err(e) => Out::Err(e.0),
     }
+}
+
+/// The two predicates of ONE accepted opinion through every borrowed view the API offers, then the
+/// views' round trips back to an owned opinion.  Tokens: `vac dog` for `w.as_ref()`,
+/// `OpinionRef::from(&w)`, `OpinionRef::from((&w.simplex, &w.base_rate))`; then `vac dog same` for
+/// `w.as_ref().cloned()` and `OpinionRef::from((&simplex, &base_rate)).into_opinion()`, where `same` =
+/// the round trip stores the same numbers bit for bit (`key` = the stored numbers as text).
+fn view_flags<T: Clone>(w: &Opinion<T, V>, key: impl Fn(&Opinion<T, V>) -> String, out: &mut String) {
+    let k0 = key(w);
+    let r1: OpinionRef<T, V> = w.as_ref();
+    let r2: OpinionRef<T, V> = OpinionRef::from(w);
+    let r3: OpinionRef<T, V> = OpinionRef::from((&w.simplex, &w.base_rate));
+    for r in [&r1, &r2, &r3] {
+        r.is_vacuous().dump(out);
+        r.is_dogmatic().dump(out);
+    }
+    let c1: Opinion<T, V> = r1.cloned();
+    let c2: Opinion<T, V> = r3.into_opinion();
+    for c in [&c1, &c2] {
+        c.is_vacuous().dump(out);
+        c.is_dogmatic().dump(out);
+        (key(c) == k0).dump(out);
+    }
+}
+
+/// A bare simplex has one view: `OpinionRef::from((&s, &a))` over a uniform base rate `a`.  Tokens:
+/// `vac dog` of the view, then `vac dog same` of `view.cloned()`.
+fn view_flags_s<T: Clone>(s: &Simplex<T, V>, a: T, key: impl Fn(&Opinion<T, V>) -> String, out: &mut String) {
+    let k0 = key(&OpinionBase { simplex: s.clone(), base_rate: a.clone() });
+    let r: OpinionRef<T, V> = OpinionRef::from((s, &a));
+    r.is_vacuous().dump(out);
+    r.is_dogmatic().dump(out);
+    let c: Opinion<T, V> = r.cloned();
+    c.is_vacuous().dump(out);
+    c.is_dogmatic().dump(out);
+    (key(&c) == k0).dump(out);
+}
+
+fn dump_key<D: Dump>(d: &D) -> String {
+    let mut w = String::new();
+    d.dump(&mut w);
+    w
 }
 
 fn op_simplex_new(f: char, t3: &str, ints: &[i64], sc: &[V]) -> Out {
@@ -154,7 +202,10 @@ fn op_simplex_new(f: char, t3: &str, ints: &[i64], sc: &[V]) -> Out {
                 "tf" => tf!($F, $n),
                 _ => return Out::Unsup,
             };
-            new_result(r, |s| (s.is_vacuous(), s.is_dogmatic()))
+            new_result(r, |s| (s.is_vacuous(), s.is_dogmatic()), |s, out| {
+                let a: T = mk_v(&vec![(1.0 as V) / ($n as V); $n]);
+                view_flags_s(s, a, dump_key, out)
+            })
         }};
     }
     chain!(@ [fam f; n14 n;] body [])
@@ -191,7 +242,7 @@ fn op_opinion_new(f: char, t3: &str, ints: &[i64], sc: &[V]) -> Out {
                 "up" => up!($F, $n),
                 _ => return Out::Unsup,
             };
-            new_result(r, |w| (w.is_vacuous(), w.is_dogmatic()))
+            new_result(r, |w| (w.is_vacuous(), w.is_dogmatic()), |w, out| view_flags(w, dump_key, out))
         }};
     }
     chain!(@ [fam f; n14 n;] body [])
@@ -563,4 +614,5 @@ fn op_fuse_fold(f: char, var: &[&str], ints: &[i64], sc: &[V]) -> Out {
 }
 
 include!("ops_cond.rs");
+include!("ops_nd.rs");
 include!("ops_bi.rs");
